@@ -354,7 +354,7 @@ func (t *sseClientTransport) handleResponse(data string) {
 	}
 
 	// Get the response ID as a string.
-	idStr := fmt.Sprintf("%v", response.ID)
+	idStr := requestIDKey(response.ID)
 
 	// Find the corresponding response channel.
 	t.responsesMu.RLock()
@@ -587,7 +587,7 @@ func (t *sseClientTransport) sendRequestInternal(ctx context.Context, req *JSONR
 	}
 
 	// Create a response channel.
-	idStr := fmt.Sprintf("%v", req.ID)
+	idStr := requestIDKey(req.ID)
 	responseChan := make(chan *json.RawMessage, 1)
 
 	// Register the response channel.
